@@ -182,7 +182,10 @@ func C07(tier string) int {
 	res.Assumptions = []string{"header values marked 'either' (case variants, lists) are exempt from the handled/not-handled assertion but not from the monitors",
 		"a panic is C11's business and is not judged here"}
 	var mu sync.Mutex
-	type viol struct{ key, what string; rep M }
+	type viol struct {
+		key, what string
+		rep       M
+	}
 	chunk := 2000
 	n := (len(cases) + chunk - 1) / chunk
 	parallel(n, func(ci int) {
